@@ -1,7 +1,7 @@
 /* c07_oracle.c — libc float parsing oracle used by the C07 generator.
- * stdin: lines "<f|d|e> <hex text|->"; stdout: "<end>/<overflow>/<bits>" per line, where
- * end = characters strtof/strtod/strtold consumed, overflow = ERANGE with an infinite
- * result, bits = the value's bit pattern in hex (binary32, binary64, x87 80 bit), "nan" for NaN.
+ * stdin: lines "<f|d|e> <hex text|->"; stdout: "<end>/<erange>/<bits>" per line, where
+ * end = characters strtof/strtod/strtold consumed, erange = errno is ERANGE afterwards
+ * (overflow: the value is infinite; underflow: it is finite), bits = the value's bit pattern in hex (binary32, binary64, x87 80 bit), "nan" for NaN.
  * Built WITHOUT the library under test. */
 #include <stdio.h>
 #include <stdlib.h>
@@ -30,15 +30,15 @@ int main(void)
 		end = s;
 		errno = 0;
 		if (fmt == 'f') {
-			float v = strtof(s, &end); uint32_t b; ovf = (errno == ERANGE && isinf(v)); memcpy(&b, &v, 4);
+			float v = strtof(s, &end); uint32_t b; ovf = (errno == ERANGE); memcpy(&b, &v, 4);
 			if (isnan(v)) printf("%ld/%d/nan\n", (long) (end - s), ovf); else printf("%ld/%d/%" PRIx32 "\n", (long) (end - s), ovf, b);
 		}
 		else if (fmt == 'd') {
-			double v = strtod(s, &end); uint64_t b; ovf = (errno == ERANGE && isinf(v)); memcpy(&b, &v, 8);
+			double v = strtod(s, &end); uint64_t b; ovf = (errno == ERANGE); memcpy(&b, &v, 8);
 			if (isnan(v)) printf("%ld/%d/nan\n", (long) (end - s), ovf); else printf("%ld/%d/%" PRIx64 "\n", (long) (end - s), ovf, b);
 		}
 		else {
-			long double v = strtold(s, &end); uint64_t lo; uint16_t hi; ovf = (errno == ERANGE && isinf(v));
+			long double v = strtold(s, &end); uint64_t lo; uint16_t hi; ovf = (errno == ERANGE);
 			memcpy(&lo, &v, 8); memcpy(&hi, (char *) &v + 8, 2);
 			if (isnan(v)) printf("%ld/%d/nan\n", (long) (end - s), ovf);
 			else if (hi) printf("%ld/%d/%x%016" PRIx64 "\n", (long) (end - s), ovf, hi, lo);
